@@ -61,7 +61,7 @@ func crlSlotClasses(sc *sims.Scenario, pos int, p sims.CertPlan) [][]string {
 			cls = sims.CRLBad
 		case issuerNoCRLSign:
 			cls = sims.CRLBad
-		case p.Shape.Freshest && !sims.CRLHasDelta(beh):
+		case (p.Shape.Freshest || p.Shape.FreshestDNS) && !sims.CRLHasDelta(beh):
 			cls = sims.CRLBad
 		case sc.CRLRoute == "http" && sc.Entry == "validate" && !sc.Discard && (sc.Cache == "get-fault" || sc.Cache == "set-fault"):
 			cls = sims.CRLBad
